@@ -13,7 +13,10 @@
     This file states the results.  NOT proved: [Tinv] itself (the tail stamp is a lower bound of the stamps of the threads
     inside a critical region) - it needs the full correctness argument of remove / update_tail_stamp with helping;
     C01 is therefore stated for the runs that keep [Tinv] ([stamp_safe_partial]); [Tinv] and the list invariants of
-    the thread order queue were checked on 10^8 random states of the extracted model, no violation.  No axioms. *)
+    the thread order queue were checked on the extracted model (ocaml/stamp_explore.ml): 1.4e8 steps of random programs
+    and schedules with 2-5 threads, and all schedules of small programs (2 threads, one operation each: complete, 3.6e6 and
+    6.0e6 states; 2 threads x 2 operations and 3 threads x enter/leave: the first 1.2e8 / 2.0e8 states) - no violation.
+    No axioms. *)
 From Coq Require Import NArith List Bool Arith Lia PeanoNat Setoid.
 From XV Require Import Conc.Lts Conc.Ev Model.StampDefs Proof.StampBase Proof.StampNodes Proof.StampStamps Proof.StampOrder Proof.StampGuards.
 Import ListNotations.
